@@ -294,37 +294,72 @@ Proof.
   - intros s E. rewrite Hk. now apply Hsn.
 Qed.
 
-Lemma Inv_step v st o : v_reopen v = MAppend -> Inv v st -> Inv v (fst (step v st o)).
+(** *** the new step kinds in terms of the old ones *)
+Definition set_src (st : state) (src : list entry) : state :=
+  {| s_src := src; s_store_id := s_store_id st; s_fs := s_fs st; s_cursor := s_cursor st;
+     s_running := s_running st; s_snap := s_snap st |}.
+
+(** a run with a concurrent writer = the run, then (if it got as far as the dump) the writes *)
+Lemma conc_shape v st post : exists ws,
+  step v st (OBackupConc post) =
+  (set_src (fst (run_backup v st)) (apply_writes (s_src (fst (run_backup v st))) ws), snd (run_backup v st)).
 Proof.
-  intros Hm I. destruct o as [m ds k x del| |m|b|]; cbn [step];
-    [ | | | cbn [fst]; apply Inv_idfile; fs_simpl; auto | cbn [fst]; apply Inv_idfile; fs_simpl; auto].
-  - cbn [fst]. destruct I as [U P W Hi Hc Hd Hs].
-    constructor; cbn [s_src s_fs s_cursor s_snap].
-    + now apply uniq_put.
-    + now apply allpos_put.
-    + exact W.
-    + eapply incl_tran; [exact Hi | apply incl_put].
-    + now apply safe_put.
-    + now apply safe_put.
-    + intros s E. destruct (Hs s E) as (A & B & C & D). repeat split; auto.
-      eapply incl_tran; [exact D | apply incl_put].
-  - now apply Inv_backup.
-  - cbn [fst]. destruct I as [U P W Hi Hc Hd Hs].
-    constructor; cbn [s_src s_fs s_cursor s_snap].
-    + now apply uniq_put.
-    + now apply allpos_put.
-    + exact W.
-    + eapply incl_tran; [exact Hi | apply incl_put].
-    + now apply safe_put.
-    + now apply safe_put.
-    + intros s E. destruct (Hs s E) as (A & B & C & D). repeat split; auto.
-      eapply incl_tran; [exact D | apply incl_put].
+  cbn [step]. destruct (run_backup v st) as [st1 r]. cbn [fst snd].
+  destruct (r =? R_RETURNED); [exists post; reflexivity | exists []; destruct st1; reflexivity].
 Qed.
 
-Lemma Inv_run v ops : v_reopen v = MAppend -> forall st, Inv v st -> Inv v (run v ops st).
+(** ops of the native restore theorems: no rsync-mode tick, no delete-all *)
+Definition plain (o : op) : bool := negb (is_rsync o) && negb (is_delete o).
+Definition is_backup (o : op) : bool :=
+  match o with OBackup | OBackupConc _ | OBackupRsync _ => true | _ => false end.
+
+Lemma Inv_put v st m ds k x del : Inv v st -> Inv v (set_src st (src_put (s_src st) m ds k x del)).
 Proof.
-  intros Hm. induction ops as [|o ops IH]; cbn [run]; intros st I; [exact I|].
-  apply IH. now apply Inv_step.
+  intros [U P W Hi Hc Hd Hs].
+  constructor; cbn [set_src s_src s_fs s_cursor s_snap].
+  - now apply uniq_put.
+  - now apply allpos_put.
+  - exact W.
+  - eapply incl_tran; [exact Hi | apply incl_put].
+  - now apply safe_put.
+  - now apply safe_put.
+  - intros s E. destruct (Hs s E) as (A & B & C & D). repeat split; auto.
+    eapply incl_tran; [exact D | apply incl_put].
+Qed.
+
+Lemma Inv_writes v ws : forall st, Inv v st -> Inv v (set_src st (apply_writes (s_src st) ws)).
+Proof.
+  induction ws as [|[[[[m ds] k] x] del] ws IH]; intros st I.
+  - destruct st; exact I.
+  - cbn [apply_writes fold_left].
+    exact (IH (set_src st (src_put (s_src st) m ds k x del)) (Inv_put v st m ds k x del I)).
+Qed.
+
+Lemma Inv_step v st o : v_reopen v = MAppend -> plain o = true -> Inv v st -> Inv v (fst (step v st o)).
+Proof.
+  intros Hm Hp I. destruct o as [m ds k x del| |m|b| |post|ok|m' sid']; try discriminate Hp.
+  - exact (Inv_put v st m ds k x del I).
+  - now apply Inv_backup.
+  - cbn [step fst]. destruct I as [U P W Hi Hc Hd Hs].
+    constructor; cbn [s_src s_fs s_cursor s_snap].
+    + now apply uniq_put.
+    + now apply allpos_put.
+    + exact W.
+    + eapply incl_tran; [exact Hi | apply incl_put].
+    + now apply safe_put.
+    + now apply safe_put.
+    + intros s E. destruct (Hs s E) as (A & B & C & D). repeat split; auto.
+      eapply incl_tran; [exact D | apply incl_put].
+  - cbn [step fst]. apply Inv_idfile; fs_simpl; auto.
+  - cbn [step fst]. apply Inv_idfile; fs_simpl; auto.
+  - destruct (conc_shape v st post) as [ws ->]. cbn [fst]. apply Inv_writes. now apply Inv_backup.
+Qed.
+
+Lemma Inv_run v ops : v_reopen v = MAppend -> forallb plain ops = true ->
+  forall st, Inv v st -> Inv v (run v ops st).
+Proof.
+  intros Hm. induction ops as [|o ops IH]; cbn [run forallb]; intros Hp st I; [exact I|].
+  apply andb_true_iff in Hp. destruct Hp as [Ho Hp]. apply (IH Hp). now apply Inv_step.
 Qed.
 
 Lemma uniq_nil : uniq []. Proof. intros ? ? []. Qed.
@@ -356,13 +391,11 @@ Proof.
 Qed.
 
 (** *** C20_restore *)
-Theorem restore_append : forall v m0 sid ops, v_reopen v = MAppend ->
+Theorem restore_append : forall v m0 sid ops, v_reopen v = MAppend -> forallb plain ops = true ->
   restore_ok (run v ops (init v m0 sid [])).
-Proof. intros. apply (Inv_restore_ok v), Inv_run; [assumption | apply Inv_init]. Qed.
+Proof. intros. apply (Inv_restore_ok v), Inv_run; [assumption | assumption | apply Inv_init]. Qed.
 
 (** ** the split-history form: no ghost state in the statement *)
-Definition is_backup (o : op) : bool := match o with OBackup => true | _ => false end.
-
 Lemma run_app v a b st : run v (a ++ b) st = run v b (run v a st).
 Proof. revert st. induction a as [|o a IH]; cbn; intros; [reflexivity | apply IH]. Qed.
 
@@ -388,26 +421,33 @@ Proof.
   cbn [s_fs s_store_id s_src]; repeat split; fs_simpl; reflexivity.
 Qed.
 
-Lemma ours_step v st o : is_env o = false -> ours st -> ours (fst (step v st o)).
+Lemma ours_backup v st : ours st -> ours (fst (run_backup v st)).
 Proof.
-  intros He O. destruct o as [m ds k x del| |m|b|]; try discriminate He; cbn [step fst].
-  - exact O.
-  - unfold run_backup. destruct O as [Hr Hid]. rewrite Hr.
-    pose proof (ours_valid st (conj Hr Hid)) as Hv.
-    destruct (valid_location st) as [ok f1] eqn:V. cbn in Hv. subst ok. cbn [fst].
-    destruct (dnb_frame v (with_fs st f1)) as (F1 & F2 & _). cbn [with_fs s_fs s_store_id] in F1, F2.
-    split; cbn [s_running s_fs s_store_id]; [reflexivity|]. rewrite F1, F2.
-    right. unfold valid_location in V. destruct Hid as [H|H]; rewrite H in V.
-    + injection V as <-. now rewrite fs_get_set_same.
-    + rewrite bytes_eqb_refl in V. injection V as <-. exact H.
-  - destruct O as [_ Hid]. split; [reflexivity | exact Hid].
+  intros O. unfold run_backup. destruct O as [Hr Hid]. rewrite Hr.
+  pose proof (ours_valid st (conj Hr Hid)) as Hv.
+  destruct (valid_location st) as [ok f1] eqn:V. cbn in Hv. subst ok. cbn [fst].
+  destruct (dnb_frame v (with_fs st f1)) as (F1 & F2 & _). cbn [with_fs s_fs s_store_id] in F1, F2.
+  split; cbn [s_running s_fs s_store_id]; [reflexivity|]. rewrite F1, F2.
+  right. unfold valid_location in V. destruct Hid as [H|H]; rewrite H in V.
+  - injection V as <-. now rewrite fs_get_set_same.
+  - rewrite bytes_eqb_refl in V. injection V as <-. exact H.
 Qed.
 
-Lemma ours_run v ops : forallb (fun o => negb (is_env o)) ops = true -> forall st, ours st -> ours (run v ops st).
+Lemma ours_step v st o : is_env o = false -> plain o = true -> ours st -> ours (fst (step v st o)).
+Proof.
+  intros He Hp O. destruct o as [m ds k x del| |m|b| |post|ok|m' sid']; try discriminate He; try discriminate Hp.
+  - exact O.
+  - now apply ours_backup.
+  - destruct O as [_ Hid]. split; [reflexivity | exact Hid].
+  - destruct (conc_shape v st post) as [ws ->]. cbn [fst]. exact (ours_backup v st O).
+Qed.
+
+Lemma ours_run v ops : forallb (fun o => negb (is_env o) && plain o) ops = true ->
+  forall st, ours st -> ours (run v ops st).
 Proof.
   induction ops as [|o ops IH]; cbn [run forallb]; intros H st O; [exact O|].
-  apply andb_true_iff in H. destruct H as [Ho H]. apply (IH H), ours_step; [|exact O].
-  now destruct (is_env o).
+  apply andb_true_iff in H. destruct H as [Ho H]. apply andb_true_iff in Ho. destruct Ho as [Ho1 Ho2].
+  apply (IH H), ours_step; [now destruct (is_env o) | assumption | exact O].
 Qed.
 
 Lemma ours_init v m0 sid : ours (init v m0 sid []).
@@ -418,7 +458,7 @@ Lemma snap_no_backup v ops : forallb (fun o => negb (is_backup o)) ops = true ->
 Proof.
   induction ops as [|o ops IH]; cbn [run forallb]; intros H st; [reflexivity|].
   apply andb_true_iff in H. destruct H as [Ho H]. rewrite (IH H).
-  destruct o; cbn in Ho |- *; try reflexivity. discriminate.
+  destruct o; cbn in Ho |- *; try reflexivity; discriminate.
 Qed.
 
 Lemma backup_returns v st : ours st -> s_snap (fst (run_backup v st)) = Some (s_src st).
@@ -427,18 +467,28 @@ Proof.
   destruct (valid_location st) as [ok f1]. cbn in Hv. subst ok. reflexivity.
 Qed.
 
+Lemma forallb_app {A} (f : A -> bool) a b : forallb f (a ++ b) = forallb f a && forallb f b.
+Proof. induction a; cbn; [reflexivity | now rewrite IHa, andb_assoc]. Qed.
+
 Theorem restore_append_explicit : forall v m0 sid h1 h2,
   v_reopen v = MAppend ->
-  forallb (fun o => negb (is_env o)) h1 = true ->
-  forallb (fun o => negb (is_backup o)) h2 = true ->
+  forallb (fun o => negb (is_env o) && plain o) h1 = true ->
+  forallb (fun o => negb (is_backup o) && plain o) h2 = true ->
   let st1 := run v h1 (init v m0 sid []) in
   let st := run v (h1 ++ OBackup :: h2) (init v m0 sid []) in
   exists file, fs_get (s_fs st) FKv = Some (DEntries file) /\
                forall ds k, latest ds k (badger_load file) = latest ds k (s_src st1).
 Proof.
-  intros v m0 sid h1 h2 Hm Hne Hnb st1 st.
-  assert (R : restore_ok st) by (apply restore_append; assumption).
-  apply R. subst st. rewrite run_app. cbn [run step]. rewrite (snap_no_backup v h2 Hnb).
+  intros v m0 sid h1 h2 Hm H1 H2 st1 st.
+  assert (P1 : forallb plain h1 = true).
+  { apply forallb_forall. intros o Ho. apply (proj1 (forallb_forall _ _) H1) in Ho.
+    apply andb_true_iff in Ho. tauto. }
+  assert (P2 : forallb plain h2 = true /\ forallb (fun o => negb (is_backup o)) h2 = true).
+  { split; apply forallb_forall; intros o Ho; apply (proj1 (forallb_forall _ _) H2) in Ho;
+      apply andb_true_iff in Ho; tauto. }
+  assert (R : restore_ok st).
+  { apply restore_append; [assumption|]. rewrite forallb_app. cbn [forallb]. rewrite P1, (proj1 P2). reflexivity. }
+  apply R. subst st. rewrite run_app. cbn [run step]. rewrite (snap_no_backup v h2 (proj2 P2)).
   apply backup_returns. apply ours_run; [assumption | apply ours_init].
 Qed.
 
@@ -446,44 +496,149 @@ Qed.
 Definition foreign (st : state) : Prop :=
   exists b, fs_get (s_fs st) FStorageId = Some (DBytes b) /\ b <> s_store_id st.
 
-Lemma foreign_step v st o : is_env o = false -> foreign st ->
-  s_fs (fst (step v st o)) = s_fs st /\ s_store_id (fst (step v st o)) = s_store_id st
-  /\ s_snap (fst (step v st o)) = s_snap st /\ snd (step v st o) <> R_RETURNED.
+Lemma foreign_backup v st : foreign st ->
+  (fst (run_backup v st) = st \/ fst (run_backup v st) = 
+     {| s_src := s_src st; s_store_id := s_store_id st; s_fs := s_fs st; s_cursor := s_cursor st;
+        s_running := true; s_snap := s_snap st |})
+  /\ snd (run_backup v st) <> R_RETURNED.
 Proof.
-  intros He (b & Hb & Hne). destruct o as [m ds k x del| |m|b'|]; try discriminate He;
-    cbn [step fst snd s_fs s_store_id s_snap]; try (repeat split; [discriminate]).
-  unfold run_backup. destruct (s_running st); [repeat split; discriminate|].
+  intros (b & Hb & Hne). unfold run_backup. destruct (s_running st); [split; [now left | discriminate]|].
   unfold valid_location. rewrite Hb.
   destruct (bytes_eqb (s_store_id st) b) eqn:E; [apply bytes_eqb_eq in E; congruence|].
-  cbn. repeat split; discriminate.
+  cbn. split; [now right | discriminate].
+Qed.
+
+Lemma foreign_step v st o : is_env o = false -> foreign st ->
+  s_fs (fst (step v st o)) = s_fs st
+  /\ (is_delete o = false -> s_store_id (fst (step v st o)) = s_store_id st)
+  /\ s_snap (fst (step v st o)) = s_snap st /\ snd (step v st o) <> R_RETURNED.
+Proof.
+  intros He F. destruct o as [m ds k x del| |m|b'| |post|ok|m' sid']; try discriminate He;
+    try (cbn [step fst snd s_fs s_store_id s_snap]; repeat split; discriminate).
+  - destruct (foreign_backup v st F) as [[E|E] R]; cbn [step]; rewrite E; repeat split; auto.
+  - destruct (foreign_backup v st F) as [[E|E] R].
+    + cbn [step]. destruct (run_backup v st) as [st1 r]. cbn [fst snd] in *. subst st1.
+      destruct (r =? R_RETURNED) eqn:Er; [apply N.eqb_eq in Er; contradiction|]. repeat split; auto.
+    + cbn [step]. destruct (run_backup v st) as [st1 r]. cbn [fst snd] in *. subst st1.
+      destruct (r =? R_RETURNED) eqn:Er; [apply N.eqb_eq in Er; contradiction|]. repeat split; auto.
+  - destruct F as (b & Hb & Hne). cbn [step]. unfold run_backup_rsync.
+    destruct (s_running st); [repeat split; discriminate|].
+    unfold valid_location. rewrite Hb.
+    destruct (bytes_eqb (s_store_id st) b) eqn:E; [apply bytes_eqb_eq in E; congruence|].
+    cbn. repeat split; discriminate.
 Qed.
 
 Theorem foreign_never_written : forall v ops st,
-  forallb (fun o => negb (is_env o)) ops = true -> foreign st ->
+  forallb (fun o => negb (is_env o) && negb (is_delete o)) ops = true -> foreign st ->
   s_fs (run v ops st) = s_fs st /\ s_snap (run v ops st) = s_snap st.
 Proof.
   intros v ops. induction ops as [|o ops IH]; cbn [run forallb]; intros st He F; [now split|].
-  apply andb_true_iff in He. destruct He as [Ho He].
+  apply andb_true_iff in He. destruct He as [Ho He]. apply andb_true_iff in Ho. destruct Ho as [Ho1 Ho2].
   assert (Ho' : is_env o = false) by now destruct (is_env o).
-  destruct (foreign_step v st o Ho' F) as (A & B & C & _).
+  assert (Hd' : is_delete o = false) by now destruct (is_delete o).
+  destruct (foreign_step v st o Ho' F) as (A & B & C & _). specialize (B Hd').
   assert (F' : foreign (fst (step v st o))).
   { destruct F as (b & Hb & Hne). exists b. now rewrite A, B. }
   destruct (IH _ He F') as [H1 H2]. now rewrite H1, H2, A, C.
 Qed.
 
-(** ** what the pinned tree does: the file is frozen after the run that created it *)
-Lemma readonly_frozen_step v st o X : v_reopen v = MRead ->
-  fs_get (s_fs st) FKv = Some (DEntries X) -> fs_get (s_fs (fst (step v st o))) FKv = Some (DEntries X).
+(** ** Store.Delete resets the store's identity: the emptied store is a different store *)
+Theorem delete_makes_foreign : forall v st m sid b,
+  fs_get (s_fs st) FStorageId = Some (DBytes b) -> b <> sid ->
+  foreign (fst (step v st (ODeleteAll m sid)))
+  /\ s_fs (fst (step v st (ODeleteAll m sid))) = s_fs st
+  /\ s_snap (fst (step v st (ODeleteAll m sid))) = s_snap st.
+Proof. intros. cbn [step fst]. repeat split. exists b. cbn. now split. Qed.
+
+(** ... so after a delete-all with a fresh id the backup stays what it was: every later run is
+    refused, the location and the snapshot are frozen and the restore statement keeps holding *)
+Theorem restore_after_delete : forall v m0 sid h1 m sid' h2 b,
+  v_reopen v = MAppend -> forallb plain h1 = true ->
+  loc_id (s_fs (run v h1 (init v m0 sid []))) = Some b -> b <> sid' ->
+  forallb (fun o => negb (is_env o) && negb (is_delete o)) h2 = true ->
+  let st1 := run v h1 (init v m0 sid []) in
+  let st := run v (h1 ++ ODeleteAll m sid' :: h2) (init v m0 sid []) in
+  restore_ok st /\ s_fs st = s_fs st1 /\ s_snap st = s_snap st1.
 Proof.
-  intros Hm Hx. destruct o as [m ds k x del| |m|b|]; cbn [step fst s_fs with_fs]; try exact Hx;
-    [|fs_simpl; exact Hx|fs_simpl; exact Hx].
-  unfold run_backup. destruct (s_running st); [exact Hx|].
+  intros v m0 sid h1 m sid' h2 b Hm P1 Hl Hne H2 st1 st.
+  assert (R1 : restore_ok st1) by (apply restore_append; assumption).
+  assert (Hb : fs_get (s_fs st1) FStorageId = Some (DBytes b)).
+  { unfold loc_id in Hl. fold st1 in Hl. destruct (fs_get (s_fs st1) FStorageId) as [[?|?|?]|]; try discriminate.
+    now injection Hl as ->. }
+  destruct (delete_makes_foreign v st1 m sid' b Hb Hne) as (F & A & C).
+  destruct (foreign_never_written v h2 _ H2 F) as [A2 C2].
+  assert (Ef : s_fs st = s_fs st1) by (subst st; rewrite run_app; cbn [run]; fold st1; now rewrite A2, A).
+  assert (Es : s_snap st = s_snap st1) by (subst st; rewrite run_app; cbn [run]; fold st1; now rewrite C2, C).
+  split; [|now split]. intros s E. rewrite Es in E. rewrite Ef. now apply R1.
+Qed.
+
+(** ** rsync mode: the copy is the snapshot of the last run whose rsync succeeded, whatever fails in between *)
+Lemma rsync_step v st o : is_native o = false -> restore_ok_rsync st -> restore_ok_rsync (fst (step v st o)).
+Proof.
+  unfold restore_ok_rsync. intros Hn R.
+  destruct o as [m ds k x del| |m|b| |post|ok|m' sid']; try discriminate Hn; cbn [step fst s_fs s_snap with_fs];
+    try exact R; try (intros s E; fs_simpl; now apply R).
+  unfold run_backup_rsync. destruct (s_running st); [exact R|].
+  destruct (valid_location st) as [valid f1] eqn:V.
+  assert (Vc : fs_get f1 FCopy = fs_get (s_fs st) FCopy).
+  { unfold valid_location in V. destruct (fs_get (s_fs st) FStorageId) as [[?|?|?]|]; injection V as <- <-; auto.
+    now fs_simpl. }
+  destruct valid; [destruct ok|]; cbn [fst s_fs s_snap].
+  - intros s [= <-]. now fs_simpl.
+  - intros s E. rewrite Vc. now apply R.
+  - intros s E. rewrite Vc. now apply R.
+Qed.
+
+Theorem restore_rsync : forall v ops st, forallb (fun o => negb (is_native o)) ops = true ->
+  restore_ok_rsync st -> restore_ok_rsync (run v ops st).
+Proof.
+  intros v ops. induction ops as [|o ops IH]; cbn [run forallb]; intros st H R; [exact R|].
+  apply andb_true_iff in H. destruct H as [Ho H]. apply (IH _ H), rsync_step; [now destruct (is_native o) | exact R].
+Qed.
+
+(** ** the run-state machine: isRunning is set after a step only if it was set before or the step is a
+    tick that panicked on an invalid location; a restart clears it *)
+Definition is_restart_op (o : op) : bool := match o with ORestart _ => true | _ => false end.
+Theorem running_released : forall v st o,
+  s_running (fst (step v st o)) = true ->
+  (s_running st = true /\ is_restart_op o = false) \/ snd (step v st o) = R_REFUSED.
+Proof.
+  intros v st o. destruct o as [m ds k x del| |m|b| |post|ok|m' sid']; cbn [step fst snd s_running with_fs is_restart_op];
+    try (intros H; left; split; [exact H | reflexivity]); try discriminate.
+  - unfold run_backup. destruct (s_running st) eqn:Er; [intros _; left; now split|].
+    destruct (valid_location st) as [ok f1]. destruct ok; cbn; [discriminate | now right].
+  - destruct (conc_shape v st post) as [ws E]. cbn [step] in E. rewrite E. cbn [fst snd set_src s_running].
+    unfold run_backup. destruct (s_running st) eqn:Er; [intros _; left; now split|].
+    destruct (valid_location st) as [ok f1]. destruct ok; cbn; [discriminate | now right].
+  - unfold run_backup_rsync. destruct (s_running st) eqn:Er; [intros _; left; now split|].
+    destruct (valid_location st) as [valid f1]. destruct valid; [destruct ok|]; cbn; try discriminate. now right.
+Qed.
+
+(** ** what the pinned tree did: the file is frozen after the run that created it *)
+Lemma readonly_frozen_backup v st X : v_reopen v = MRead ->
+  fs_get (s_fs st) FKv = Some (DEntries X) -> fs_get (s_fs (fst (run_backup v st))) FKv = Some (DEntries X).
+Proof.
+  intros Hm Hx. unfold run_backup. destruct (s_running st); [exact Hx|].
   destruct (valid_location st) as [ok f1] eqn:V.
   destruct (valid_location_fs _ _ _ V) as (Vk & _ & _).
   destruct ok; cbn [fst s_fs]; [|now rewrite Vk].
   unfold do_native_backup, badger_backup, store_last_id. cbv zeta.
   cbn [with_fs s_fs s_src s_cursor]. unfold file_exists. rewrite Vk, Hx, Hm. cbn [fs_open fs_write_entries].
   destruct (filter _ (s_src st)); cbn [s_fs]; fs_simpl; now rewrite Vk.
+Qed.
+
+Lemma readonly_frozen_step v st o X : v_reopen v = MRead ->
+  fs_get (s_fs st) FKv = Some (DEntries X) -> fs_get (s_fs (fst (step v st o))) FKv = Some (DEntries X).
+Proof.
+  intros Hm Hx. destruct o as [m ds k x del| |m|b| |post|ok|m' sid']; cbn [step fst s_fs with_fs]; try exact Hx;
+    try (fs_simpl; exact Hx).
+  - now apply readonly_frozen_backup.
+  - destruct (conc_shape v st post) as [ws E]. cbn [step] in E. rewrite E. cbn [fst set_src s_fs].
+    now apply readonly_frozen_backup.
+  - unfold run_backup_rsync. destruct (s_running st); [exact Hx|].
+    destruct (valid_location st) as [valid f1] eqn:V.
+    destruct (valid_location_fs _ _ _ V) as (Vk & _ & _).
+    destruct valid; [destruct ok|]; cbn [fst s_fs]; fs_simpl; now rewrite Vk.
 Qed.
 
 Lemma readonly_frozen_run v ops X : v_reopen v = MRead -> forall st,
@@ -507,6 +662,7 @@ Proof.
   - now apply allpos_put.
   - now rewrite Pf.
   - now apply allpos_put.
+  - apply allpos_put, allpos_nil.
 Qed.
 
 Lemma filter_allpos l : allpos l -> filter (fun e => 0 <? e_ver e) l = l.
@@ -543,14 +699,11 @@ Proof.
 Qed.
 
 (** ** the cursor: with the same name written and read a restart does not change it *)
-Lemma cursor_on_disk_step v st o : v_name v = NameSame ->
+Lemma cursor_on_disk_backup v st : v_name v = NameSame ->
   s_cursor st = load_last_id v (s_fs st) ->
-  s_cursor (fst (step v st o)) = load_last_id v (s_fs (fst (step v st o))).
+  s_cursor (fst (run_backup v st)) = load_last_id v (s_fs (fst (run_backup v st))).
 Proof.
-  intros Hn H. destruct o as [m ds k x del| |m|b|]; cbn [step fst s_cursor s_fs with_fs]; auto;
-    [|rewrite H; unfold load_last_id, read_name; rewrite Hn; now fs_simpl
-     |rewrite H; unfold load_last_id, read_name; rewrite Hn; now fs_simpl].
-  unfold run_backup. destruct (s_running st); [exact H|].
+  intros Hn H. unfold run_backup. destruct (s_running st); [exact H|].
   destruct (valid_location st) as [ok f1] eqn:V.
   destruct (valid_location_fs _ _ _ V) as (_ & Vs & _).
   assert (Hr : read_name v = FSeen) by (unfold read_name; now rewrite Hn).
@@ -558,6 +711,23 @@ Proof.
   - unfold do_native_backup, badger_backup, store_last_id, load_last_id. cbv zeta. rewrite Hr.
     destruct (filter _ _); [|destruct (fs_write_entries _ _ _ _)]; cbn [s_cursor s_fs]; now rewrite fs_get_set_same.
   - rewrite H. unfold load_last_id. now rewrite Hr, Vs.
+Qed.
+
+Lemma cursor_on_disk_step v st o : v_name v = NameSame ->
+  s_cursor st = load_last_id v (s_fs st) ->
+  s_cursor (fst (step v st o)) = load_last_id v (s_fs (fst (step v st o))).
+Proof.
+  intros Hn H.
+  assert (Hr : read_name v = FSeen) by (unfold read_name; now rewrite Hn).
+  destruct o as [m ds k x del| |m|b| |post|ok|m' sid']; cbn [step fst s_cursor s_fs with_fs]; auto;
+    try (rewrite H; unfold load_last_id; rewrite Hr; now fs_simpl).
+  - now apply cursor_on_disk_backup.
+  - destruct (conc_shape v st post) as [ws E]. cbn [step] in E. rewrite E. cbn [fst set_src s_cursor s_fs].
+    now apply cursor_on_disk_backup.
+  - unfold run_backup_rsync. destruct (s_running st); [exact H|].
+    destruct (valid_location st) as [valid f1] eqn:V.
+    destruct (valid_location_fs _ _ _ V) as (_ & Vs & _).
+    destruct valid; [destruct ok|]; cbn [fst s_cursor s_fs]; rewrite H; unfold load_last_id; rewrite Hr; fs_simpl; now rewrite Vs.
 Qed.
 
 Theorem cursor_survives_restart : forall v m0 sid ops m, v_name v = NameSame ->
@@ -569,6 +739,25 @@ Proof.
   induction ops as [|o ops IH]; cbn [run]; intros st H; [exact H|].
   apply IH. now apply cursor_on_disk_step.
 Qed.
+
+(** ** the cursor file's encoding: writing 8 little-endian bytes and reading them back is the
+    identity below 2^64 (and in general reduces modulo 2^(8k)) *)
+Lemma le_dec_enc k : forall n, le_dec (le_enc k n) = n mod (256 ^ N.of_nat k).
+Proof.
+  induction k as [|k IH]; intros n.
+  - cbn. now rewrite N.mod_1_r.
+  - cbn [le_enc le_dec]. rewrite IH, Nat2N.inj_succ, N.pow_succ_r'.
+    rewrite N.mod_mul_r by (try apply N.pow_nonzero; discriminate). reflexivity.
+Qed.
+
+Theorem cursor_codec_roundtrip : forall n, n < 2 ^ 64 -> le_dec (le64_enc n) = n.
+Proof.
+  intros n H. unfold le64_enc. rewrite le_dec_enc. apply N.mod_small.
+  change (256 ^ N.of_nat 8) with (2 ^ 64). exact H.
+Qed.
+
+Lemma le_enc_length k : forall n, length (le_enc k n) = k.
+Proof. induction k; intros; cbn; [reflexivity | now rewrite IHk]. Qed.
 
 (** ** refutation witnesses (pinned tree = [current]) *)
 (** the history of finding F20a with the store versions observed on the real hub *)
